@@ -93,6 +93,10 @@ class Property(object):
             contract = self.reg.by_key.get(key)
             if contract is None:
                 raise KeyError("no contract registered for " + key)
+        sc = getattr(contract, "scope", None)
+        if sc is not None:
+            for g, srt in sc.ghost_sorts.items():
+                self.reg.ghost_sorts.setdefault(g, srt)
         t = Target(key, contract, **kw)
         self.targets.append(t)
         return t
